@@ -307,7 +307,7 @@ func solveAll(w *World, obls []*Obligation, timeoutS, seed int) {
 			if o.Expect == "sat" && t > 3 {
 				t = 3
 			}
-			if o.Clause != nil && o.Clause.Withdrawn && t > 5 {
+			if (o.KnownFailing || o.Clause != nil && o.Clause.Withdrawn) && t > 5 {
 				t = 5 // recorded finding: expected to fail
 			}
 			t0 := t
@@ -482,8 +482,32 @@ func verifyLemma(l *Loaded, specs *Specs, lm *Lemma) (*World, *Obligation) {
 				panic(r)
 			}
 		}()
-		g := w.evalBool(env, lm.Expr)
+		// a universally quantified lemma is proved for fresh constants, so
+		// that a refutation comes with the values of the quantified variables
+		expr := lm.Expr
+		var names, terms []string
+		if expr.Op == "forall" {
+			for _, b := range expr.Binders {
+				var srt Sort
+				var typ types.Type
+				if b.Type.Raw != "" {
+					srt = Sort(b.Type.Raw)
+				} else if b.Type.Pkg == "" && b.Type.Ptr == 0 && !b.Type.Slice && w.isSortName(b.Type.Name) {
+					srt = Sort(b.Type.Name)
+				} else {
+					typ = w.resolveType(env, b.Type)
+					srt = w.sortOf(typ)
+				}
+				c := w.sc.declare("lemma."+b.Name, srt)
+				env = env.with(b.Name, &Val{T: c, Typ: typ})
+				names = append(names, b.Name)
+				terms = append(terms, c.S)
+			}
+			expr = expr.Args[0]
+		}
+		g := w.evalBool(env, expr)
 		o = w.oblige("lemma", "lemma", tTrue, g, true, lm.Props)
+		o.ValNames, o.Values = names, terms
 	}()
 	o.Pos = lm.File
 	return w, o
